@@ -60,6 +60,20 @@ fn truncate_case(n: usize, x: Fe, tier: Tier) -> GCase {
     let all_pairs = tier == Tier::Thorough && (n % 32 == 1 || n >= 252);
     c.named = Some(Arc::new(move |h: &Honest| {
         let mut devs = vec![];
+        // out-of-range splits of the same value: x = (low +- 2^N) + 2^N (high -+ 1);
+        // only the range checks on low / high stand against them
+        {
+            let (lo, hi) = (h.meta.lo, h.meta.hi);
+            let low_ord = h.meta.outs[0];
+            let w = &h.snap.witnesses;
+            for j in lo..hi {
+                if j == low_ord {
+                    continue;
+                }
+                devs.push(Dev { script: vec![(low_ord, w[low_ord] + pow2(n)), (j, w[j] - one())], tag: format!("split+2^N(low,o{})", j - lo), must_confirm: false });
+                devs.push(Dev { script: vec![(low_ord, w[low_ord] - pow2(n)), (j, w[j] + one())], tag: format!("split-2^N(low,o{})", j - lo), must_confirm: false });
+            }
+        }
         if !fits && !all_pairs {
             return devs;
         }
